@@ -91,9 +91,22 @@ class Runner:
                         self.fresh()
             return o
         if o.kind == "syntax":
-            # the harness wrote the program; a syntax error here is a harness bug, not a finding
-            ctx.count("harness_syntax_errors")
-            ctx.note("syntax error in generated program: %s" % prog)
+            import ckl.parser
+            try:
+                ckl.parser.parse_script(prog, "c13")
+                parses = True
+            except Exception:  # noqa
+                parses = False
+            if not parses:
+                # the harness wrote the program; a syntax error in its own text is a harness bug, not a finding
+                ctx.count("harness_syntax_errors")
+                ctx.note("syntax error in generated program: %s" % prog)
+                return o
+            # the program text is fine: a syntax error raised *while evaluating* (text handed to a built-in) is not the
+            # language's runtime error and cannot be intercepted by catch
+            site = core.innermost_ckl_frame(o.exc)
+            ctx.violation("C13:%s:syntax-error-at-run-time:%s" % (callee, site[0]),
+                          "%s -> %s" % (prog, core.safe_str(o.exc, 100)), {"src": prog})
             return o
         if o.kind == "host":
             ctx.violation("C13:%s:%s:%s" % (callee, type(o.exc).__name__, o.site[0]),
